@@ -232,7 +232,8 @@ def si_grid(tier):
     """(S, M, D, style, translation) of hand-built instances that satisfy the property's precondition:
     frame shift shorter than the longest filter's one-sided support -- causal: S < M - translation (support measured
     from sample 0), centered: S < M - M//2 (measured from the support's centre); frame_length = M+S-1 <= D."""
-    g = [(2, 3, 6, 'causal', 0), (2, 4, 7, 'causal', 1), (2, 5, 9, 'centered', None), (1, 3, 6, 'centered', None)]
+    # (2, 6, 9, causal, 3): a look-ahead (translation) longer than the frame shift, so that short signals end inside it
+    g = [(2, 3, 6, 'causal', 0), (2, 4, 7, 'causal', 1), (2, 6, 9, 'causal', 3), (2, 5, 9, 'centered', None), (1, 3, 6, 'centered', None)]
     if tier == 'thorough':
         g += [(3, 5, 9, 'causal', 1), (2, 4, 6, 'causal', 1), (3, 7, 12, 'centered', None), (2, 6, 9, 'centered', None)]
     for (S, M, D, style, tr) in g:
@@ -350,9 +351,9 @@ def replay_c01(w):
     rng = np.random.RandomState(7)
     style = w['style']
     worst = (0.0, None)
-    for S in (w['S'], 2 * w['S'] + 1, 5):
+    for S, pad in ((w['S'], False), (2 * w['S'] + 1, False), (5, False), (w['S'], True), (5, True)):
         try:
-            c = real_si(S, w['M'], style, power=w.get('power', True), log=w.get('log', False))
+            c = real_si(S, w['M'], style, power=w.get('power', True), log=w.get('log', False), pad=pad)     # padded: several frames per DFT block
         except Exception as e:
             continue
         V = c._dft_size - c._max_support + 1
@@ -371,6 +372,31 @@ def replay_c01(w):
                 d = float(np.abs(a - b).max()) if a.size else 0.0
                 if d > worst[0]:
                     worst = (d, (S, N, c0))
+            # many small chunks (every chunk shorter than two frame shifts) against one big one
+            for cs in (1, c._frame_shift, 2 * c._frame_shift - 1):
+                try:
+                    parts = [c.compute_chunk(xs[i:i + cs]) for i in range(0, N, cs)] + [c.finalize()]
+                    a = np.concatenate(parts)
+                    b = c.compute_full(xs)
+                except Exception as e:
+                    return {'reproduced': True, 'detail': 'real SI computer raised %s: %s (S=%d N=%d chunk size %d)' % (type(e).__name__, e, S, N, cs)}
+                if a.shape != b.shape:
+                    return {'reproduced': True, 'detail': 'real SI S=%d %s N=%d chunk size %d: shapes %s vs %s' % (S, style, N, cs, a.shape, b.shape)}
+                d = float(np.abs(a - b).max()) if a.size else 0.0
+                if d > worst[0]:
+                    worst = (d, (S, N, 'chunk size %d' % cs))
+            # streamed and one-shot results can be wrong in the same way: both against the documented definition
+            # (time-domain convolution with the prepared filters, window-weighted sums), inside the property's precondition
+            pre = (c._frame_shift < c._max_support - c._translation) if style == 'causal' else (c._frame_shift < c._max_support - c._max_support // 2)
+            if pre and N:
+                from checks import c03 as _c03
+                b = c.compute_full(xs)
+                want = _c03._definition(c, xs)
+                if b.shape != want.shape:
+                    return {'reproduced': True, 'detail': 'real SI S=%d %s N=%d: compute_full shape %s, documented %s' % (S, style, N, b.shape, want.shape)}
+                d = float(np.abs(b - want).max()) if b.size else 0.0
+                if d > 1e-7 * max(1.0, float(np.abs(want).max()) if want.size else 1.0) and d > worst[0]:
+                    worst = (d, (S, N, 'compute_full vs definition'))
     return {'reproduced': worst[0] > 1e-8, 'detail': 'max |chunked-full| over real neighbourhood = %.3g at %s' % worst}
 
 
